@@ -108,6 +108,13 @@ pub fn modes_update() -> Vec<GenCfg> {
     g.kind_w = [0, 0, 0, 3, 3, 3, 3];
     g.op_w = [22, 28, 8, 18, 8, 8, 6, 2, 0];
     v.push(g);
+    // boundary magnitudes: a few orders of 2^32 .. 2^63 units, amended up and down
+    let mut big = GenCfg::base("big");
+    big.big = true;
+    big.max_resting = 3;
+    big.len = (4, 24);
+    big.op_w = [22, 20, 8, 30, 8, 6, 4, 2, 0];
+    v.push(big);
     v
 }
 
